@@ -35,14 +35,20 @@ ASSUMPTIONS = [
     "well-formed = strict identification grammar, data characters exclude '/' and '!', checksum correct (upper-case hex) or absent, each readout < 7000 octets",
     "nothing is demanded about when within the call sequence a readout is returned",
 ]
-MUST_FIRE = {"quick": ["stream_over_8k", "never_in_hunt_mode_for_8k", "cut_between_cr_lf", "leading_tail", "bystander_reader_instance"], "thorough": ["stream_over_8k", "never_in_hunt_mode_for_8k", "cut_between_cr_lf", "leading_tail", "stream_over_100k"]}
+MUST_FIRE = {"quick": ["stream_over_8k", "never_in_hunt_mode_for_8k", "cut_between_cr_lf", "leading_tail", "bystander_reader_instance", "over_1000_readouts_in_one_call"], "thorough": ["stream_over_8k", "never_in_hunt_mode_for_8k", "cut_between_cr_lf", "leading_tail", "stream_over_100k"]}
 
 
 def gen(rng, tier, index):
     mode = rng.choice(["short", "short", "mixed", "long_fixed", "long_fixed", "long_random"])
+    if rng.random() < 0.03:
+        mode = "many_tiny"
     if mode == "short":
         n = rng.randint(1, 6)
         specs = [p1_gen.readout_spec(rng, seq if rng.random() < 0.7 else None) for seq in range(n)]
+    elif mode == "many_tiny":
+        # more than a thousand minimal readouts, delivered in very few calls (a consumer that was stalled and gets the backlog at once)
+        n = rng.randint(1100, 1600)
+        specs = [{"ident": "/ABC5", "lines": ["0-0:96.13.0(%08d)" % seq], "ck": "none", "blank": False} for seq in range(n)]
     elif mode == "mixed":
         n = rng.randint(5, 60)
         specs = [p1_gen.readout_spec(rng, seq) for seq in range(n)]
@@ -63,7 +69,9 @@ def gen(rng, tier, index):
         tail = {"of": t, "from": rng.randint(1, len(raw) - 1)}
     lens = [len(p1_gen.build(s)) for s in specs]
     total = sum(lens)
-    if mode == "long_fixed":
+    if mode == "many_tiny":
+        cuts = rng.choice([{"m": "whole"}, {"m": "fixed", "k": 65536}, {"m": "fixed", "k": 40000}])
+    elif mode == "long_fixed":
         typical = lens[0]
         k = rng.choice([typical + rng.randint(1, 40), typical - rng.randint(1, 40), 700, 1024, 4096, 8191, 8192, 65536, 64, 255, 256, 7, 3])
         cuts = {"m": "fixed", "k": max(1, k)}
@@ -163,6 +171,8 @@ def execute(sc):
         probes["stream_over_8k"] = 1
     if len(wire) > 100000:
         probes["stream_over_100k"] = 1
+    if len(sent) > 1000 and fragment.n_cuts(len(wire), sc["cuts"]) < 3:
+        probes["over_1000_readouts_in_one_call"] = 1
     if track["max_since_hunt"] > 8191:
         probes["never_in_hunt_mode_for_8k"] = 1
     if sc.get("tail"):
